@@ -2,4 +2,510 @@ import EoVerif.Model.GenExec
 /-! Helper lemmas about `compile` (invariants of the generation `Data` along the instruction walk). -/
 namespace EoVerif.Gen
 
+/-- the class predicate of C19 (definitionally the same as `ClassOK` in `Props/C19.lean`) -/
+def ClassOK' (c : ClassIR) : Prop :=
+  c.setters = [] ∧
+  "byte_size" ∈ c.getters ∧
+  (∀ f ∈ c.fields, f.kind ≠ .length → f.name ∈ c.getters) ∧
+  (∀ f ∈ c.fields, f.isArray = true → ∃ opt, InitStmt.assign f.name (.tupleOf f.name opt) ∈ c.initBody)
+
+/-- the invariant of the generation data -/
+structure DataOK (d : Data) : Prop where
+  getters : ∀ f ∈ d.fields, f.kind ≠ .length → f.name ∈ d.getters
+  arrays : ∀ f ∈ d.fields, f.isArray = true →
+    ∃ opt, InitStmt.assign f.name (.tupleOf f.name opt) ∈ d.initBody
+  aux : ∀ c ∈ d.aux, ClassOK' c
+
+theorem bind_ok_iff {ε α β} (x : Except ε α) (f : α → Except ε β) (b : β) :
+    (x >>= f) = .ok b ↔ ∃ a, x = .ok a ∧ f a = .ok b := by
+  cases x <;> simp [bind, Except.bind]
+
+theorem pure_ok_iff {ε α} (a b : α) : (pure a : Except ε α) = .ok b ↔ a = b := by
+  simp [pure, Except.pure]
+
+theorem throw_ne_ok {ε α} (e : ε) (b : α) : (throw e : Except ε α) = .ok b ↔ False := by
+  simp [throw, throwThe, MonadExceptOf.throw]
+
+theorem throw_bind_ok {ε α β} (e : ε) (k : α → Except ε β) (b : β) :
+    ((throw e : Except ε α) >>= k) = .ok b ↔ False := by
+  simp [throw, throwThe, MonadExceptOf.throw, bind, Except.bind]
+
+theorem pure_bind_ok {ε α β} (a : α) (k : α → Except ε β) :
+    ((pure a : Except ε α) >>= k) = k a := rfl
+
+theorem DataOK.init (n : String) : DataOK { className := n } :=
+  ⟨by simp, by simp, by simp⟩
+
+/-- only `fields`, `getters`, `initBody`, `aux` matter -/
+theorem DataOK.congr {d d' : Data} (h : DataOK d) (hf : d'.fields = d.fields)
+    (hg : d'.getters = d.getters) (hi : d'.initBody = d.initBody) (ha : d'.aux = d.aux) : DataOK d' :=
+  ⟨by rw [hf, hg]; exact h.getters, by rw [hf, hi]; exact h.arrays, by rw [ha]; exact h.aux⟩
+
+/-- one growth step -/
+theorem DataOK.step {d d' : Data} (h : DataOK d) (fs : List FieldDecl)
+    (hf : d'.fields = d.fields ++ fs)
+    (hg : ∀ x ∈ d.getters, x ∈ d'.getters)
+    (hi : ∀ x ∈ d.initBody, x ∈ d'.initBody)
+    (h1 : ∀ f ∈ fs, f.kind ≠ .length → f.name ∈ d'.getters)
+    (h2 : ∀ f ∈ fs, f.isArray = true →
+      ∃ opt, InitStmt.assign f.name (.tupleOf f.name opt) ∈ d'.initBody)
+    (ha : ∀ c ∈ d'.aux, c ∈ d.aux ∨ ClassOK' c) : DataOK d' := by
+  refine ⟨?_, ?_, ?_⟩
+  · intro f hfm hk
+    rw [hf, List.mem_append] at hfm
+    rcases hfm with hfm | hfm
+    · exact hg _ (h.getters f hfm hk)
+    · exact h1 f hfm hk
+  · intro f hfm hk
+    rw [hf, List.mem_append] at hfm
+    rcases hfm with hfm | hfm
+    · obtain ⟨opt, ho⟩ := h.arrays f hfm hk
+      exact ⟨opt, hi _ ho⟩
+    · exact h2 f hfm hk
+  · intro c hc
+    rcases ha c hc with hc | hc
+    · exact h.aux c hc
+    · exact hc
+
+theorem DataOK.fieldStep {d d' : Data} (hd : DataOK d) (name : String) (kind : FieldKind) (arr : Bool)
+    (E : InitExpr)
+    (hf : d'.fields = d.fields ++ [⟨name, kind, arr⟩])
+    (hg : d'.getters = d.getters ++ [name])
+    (hi : ∀ x, x ∈ d.initBody ∨ x = .assign name E → x ∈ d'.initBody)
+    (ha : d'.aux = d.aux)
+    (harr : arr = true → ∃ opt, E = .tupleOf name opt) : DataOK d' := by
+  refine hd.step [⟨name, kind, arr⟩] hf ?_ ?_ ?_ ?_ ?_
+  · intro x hx; rw [hg]; exact List.mem_append_left _ hx
+  · intro x hx; exact hi x (Or.inl hx)
+  · intro f hfm _
+    rw [List.mem_singleton] at hfm; subst hfm
+    rw [hg]; exact List.mem_append_right _ (List.mem_singleton.2 rfl)
+  · intro f hfm hk
+    rw [List.mem_singleton] at hfm; subst hfm
+    obtain ⟨opt, ho⟩ := harr hk
+    exact ⟨opt, hi _ (Or.inr (by rw [ho]))⟩
+  · intro c hc; rw [ha] at hc; exact Or.inl hc
+
+theorem DataOK.lengthStep {d d' : Data} (hd : DataOK d) (name : String)
+    (hf : d'.fields = d.fields ++ [⟨name, .length, false⟩])
+    (hg : d'.getters = d.getters)
+    (hi : d'.initBody = d.initBody)
+    (ha : d'.aux = d.aux) : DataOK d' := by
+  refine hd.step [⟨name, .length, false⟩] hf ?_ ?_ ?_ ?_ ?_
+  · intro x hx; rw [hg]; exact hx
+  · intro x hx; rw [hi]; exact hx
+  · intro f hfm hk
+    rw [List.mem_singleton] at hfm; subst hfm
+    exact absurd rfl hk
+  · intro f hfm hk
+    rw [List.mem_singleton] at hfm; subst hfm
+    cases hk
+  · intro c hc; rw [ha] at hc; exact Or.inl hc
+
+theorem generateField_ok {tf : TypeEnv} {ctx ctx' : Ctx} {d d' : Data} {p : FP} (hd : DataOK d)
+    (hp : p.arrayField = true → p.lengthField = false ∧ p.hardcoded = none)
+    (h : generateField tf ctx d p = .ok (ctx', d')) : DataOK d' := by
+  unfold generateField at h
+  split at h
+  · simp only [pure_ok_iff, Prod.mk.injEq] at h
+    rw [← h.2]; exact hd
+  · rename_i name hn
+    simp only [bind_ok_iff] at h
+    obtain ⟨t, ht, h⟩ := h
+    by_cases hl : p.lengthField = true
+    · have harr : p.arrayField = false := by
+        cases h' : p.arrayField
+        · rfl
+        · have := (hp h').1; rw [hl] at this; cases this
+      simp only [hl, if_true, harr, pure_ok_iff, Prod.mk.injEq] at h
+      obtain ⟨_, rfl⟩ := h
+      exact hd.lengthStep name rfl rfl rfl rfl
+    · have harr : p.arrayField = true → ∃ opt,
+          (match p.hardcoded with
+            | none => if p.arrayField = true then InitExpr.tupleOf name p.optional else InitExpr.param name
+            | some h => match t with
+              | Ty.str _ _ => InitExpr.strLit h
+              | Ty.bool _ => InitExpr.boolLit (h == "true")
+              | _ => InitExpr.pasted h) = .tupleOf name opt := by
+        intro h'
+        refine ⟨p.optional, ?_⟩
+        rw [(hp h').2]; simp only [h', if_true]
+      have hl' : p.lengthField = false := by simpa using hl
+      simp only [hl', Bool.false_eq_true, if_false] at h
+      split at h
+      · split at h
+        · split at h
+          · simp only [pure_ok_iff, Prod.mk.injEq] at h
+            obtain ⟨_, rfl⟩ := h
+            refine hd.fieldStep name _ _ _ rfl rfl ?_ rfl harr
+            intro x hx
+            rcases hx with hx | hx
+            · exact List.mem_append_left _ (List.mem_append_left _ hx)
+            · subst hx
+              exact List.mem_append_left _ (List.mem_append_right _ (List.mem_singleton.2 rfl))
+          · simp only [throw_ne_ok] at h
+        · simp only [pure_ok_iff, Prod.mk.injEq] at h
+          obtain ⟨_, rfl⟩ := h
+          refine hd.fieldStep name _ _ _ rfl rfl ?_ rfl harr
+          intro x hx
+          rcases hx with hx | hx
+          · exact List.mem_append_left _ hx
+          · subst hx
+            exact List.mem_append_right _ (List.mem_singleton.2 rfl)
+      · simp only [pure_ok_iff, Prod.mk.injEq] at h
+        obtain ⟨_, rfl⟩ := h
+        refine hd.fieldStep name _ _ _ rfl rfl ?_ rfl harr
+        intro x hx
+        rcases hx with hx | hx
+        · exact List.mem_append_left _ hx
+        · subst hx
+          exact List.mem_append_right _ (List.mem_singleton.2 rfl)
+
+/-- `fields`, `getters`, `initBody`, `aux` agree -/
+def SameCore (d d' : Data) : Prop :=
+  d'.fields = d.fields ∧ d'.getters = d.getters ∧ d'.initBody = d.initBody ∧ d'.aux = d.aux
+
+theorem DataOK.ofSameCore {d d' : Data} (h : DataOK d) (hs : SameCore d d') : DataOK d' :=
+  h.congr hs.1 hs.2.1 hs.2.2.1 hs.2.2.2
+
+theorem generateSerialize_core {tf : TypeEnv} {ctx : Ctx} {d d' : Data} {p : FP}
+    (h : generateSerialize tf ctx d p = .ok d') : SameCore d d' := by
+  unfold generateSerialize at h
+  cases hA : p.arrayField <;>
+    simp only [hA, Bool.false_eq_true, if_false, if_true, bind_ok_iff, pure_ok_iff] at h
+  all_goals
+    obtain ⟨_, _, _, _, _, _, _, _, rfl⟩ := h
+    exact ⟨rfl, rfl, rfl, rfl⟩
+
+theorem generateDeserialize_core {tf : TypeEnv} {ctx : Ctx} {d d' : Data} {p : FP}
+    (h : generateDeserialize tf ctx d p = .ok d') : SameCore d d' := by
+  unfold generateDeserialize at h
+  cases hA : p.arrayField <;>
+    simp only [hA, Bool.false_eq_true, if_false, if_true, bind_ok_iff, pure_ok_iff] at h
+  all_goals
+    obtain ⟨_, _, _, _, _, _, rfl⟩ := h
+    exact ⟨rfl, rfl, rfl, rfl⟩
+
+theorem generateAll_ok {tf : TypeEnv} {ctx ctx' : Ctx} {d d' : Data} {p : FP} (hd : DataOK d)
+    (hp : p.arrayField = true → p.lengthField = false ∧ p.hardcoded = none)
+    (h : generateAll tf ctx d p = .ok (ctx', d')) : DataOK d' := by
+  unfold generateAll at h
+  simp only [bind_ok_iff, pure_ok_iff] at h
+  obtain ⟨_, _, ⟨c1, d1⟩, h1, d2, h2, d3, h3, h4⟩ := h
+  simp only [Prod.mk.injEq] at h4
+  obtain ⟨_, rfl⟩ := h4
+  exact ((generateField_ok hd hp h1).ofSameCore (generateSerialize_core h2)).ofSameCore
+    (generateDeserialize_core h3)
+
+theorem genFieldInstr_ok {tf : TypeEnv} {ctx ctx' : Ctx} {d d' : Data} {e : Xml} (hd : DataOK d)
+    (h : genFieldInstr tf ctx d e = .ok (ctx', d')) : DataOK d' := by
+  unfold genFieldInstr at h
+  dsimp only at h
+  split at h
+  · simp only [bind_ok_iff, throw_ne_ok, false_and, exists_false] at h
+  · simp only [bind_ok_iff, pure_ok_iff, Prod.mk.injEq] at h
+    obtain ⟨ty, _, text, _, ⟨c1, d1⟩, h1, _, rfl⟩ := h
+    exact generateAll_ok hd (by intro h; cases h) h1
+
+theorem genArrayInstr_ok {tf : TypeEnv} {ctx ctx' : Ctx} {d d' : Data} {e : Xml} (hd : DataOK d)
+    (h : genArrayInstr tf ctx d e = .ok (ctx', d')) : DataOK d' := by
+  unfold genArrayInstr at h
+  dsimp only at h
+  split at h
+  · simp only [bind_ok_iff, throw_ne_ok, false_and, exists_false] at h
+  · split at h
+    · simp only [bind_ok_iff, throw_ne_ok, false_and, exists_false] at h
+    · simp only [bind_ok_iff, pure_ok_iff, Prod.mk.injEq] at h
+      obtain ⟨name, _, ty, _, ⟨c1, d1⟩, h1, _, rfl⟩ := h
+      exact generateAll_ok hd (by intro _; exact ⟨rfl, rfl⟩) h1
+
+theorem genLengthInstr_ok {tf : TypeEnv} {ctx ctx' : Ctx} {d d' : Data} {e : Xml} (hd : DataOK d)
+    (h : genLengthInstr tf ctx d e = .ok (ctx', d')) : DataOK d' := by
+  unfold genLengthInstr at h
+  dsimp only at h
+  split at h
+  · simp only [bind_ok_iff, throw_ne_ok, false_and, exists_false] at h
+  · simp only [bind_ok_iff, pure_ok_iff, Prod.mk.injEq] at h
+    obtain ⟨name, _, ty, _, off, _, ⟨c1, d1⟩, h1, _, rfl⟩ := h
+    exact generateAll_ok hd (by intro h; cases h) h1
+
+theorem genDummyInstr_ok {tf : TypeEnv} {ctx ctx' : Ctx} {d d' : Data} {e : Xml} (hd : DataOK d)
+    (h : genDummyInstr tf ctx d e = .ok (ctx', d')) : DataOK d' := by
+  unfold genDummyInstr at h
+  simp only [bind_ok_iff, pure_ok_iff, Prod.mk.injEq] at h
+  obtain ⟨ty, _, text, _, _, _, d1, h1, d2, h2, _, rfl⟩ := h
+  have s1 := generateSerialize_core h1
+  have s2 := generateDeserialize_core h2
+  refine hd.congr ?_ ?_ ?_ ?_
+  · exact s2.1.trans s1.1
+  · exact s2.2.1.trans s1.2.1
+  · exact s2.2.2.1.trans s1.2.2.1
+  · exact s2.2.2.2.trans s1.2.2.2
+
+theorem DataOK.toClass {d : Data} (h : DataOK d) (ctx : Ctx) : ClassOK' (d.toClass ctx) := by
+  refine ⟨rfl, ?_, ?_, ?_⟩
+  · exact List.mem_append_right _ (List.mem_singleton.2 rfl)
+  · intro f hf hk; exact List.mem_append_left _ (h.getters f hf hk)
+  · exact h.arrays
+
+mutual
+
+theorem genInstruction_ok (tf : TypeEnv) : (x : Xml) → ∀ (ctx ctx' : Ctx) (d d' : Data), DataOK d →
+    genInstruction tf ctx d x = .ok (ctx', d') → DataOK d'
+  | .mk tag attrs text tail children => by
+    intro ctx ctx' d d' hd h
+    rw [genInstruction] at h
+    by_cases h0 : ctx.reachedDummy = true
+    · rw [if_pos h0] at h; cases h
+    rw [if_neg h0] at h
+    by_cases h1 : (tag == "field") = true
+    · rw [if_pos h1] at h; exact genFieldInstr_ok hd h
+    rw [if_neg h1] at h
+    by_cases h2 : (tag == "array") = true
+    · rw [if_pos h2] at h; exact genArrayInstr_ok hd h
+    rw [if_neg h2] at h
+    by_cases h3 : (tag == "length") = true
+    · rw [if_pos h3] at h; exact genLengthInstr_ok hd h
+    rw [if_neg h3] at h
+    by_cases h4 : (tag == "dummy") = true
+    · rw [if_pos h4] at h; exact genDummyInstr_ok hd h
+    rw [if_neg h4] at h
+    by_cases h5 : (tag == "switch") = true
+    · rw [if_pos h5] at h
+      split at h
+      · cases h
+      split at h
+      · cases h
+      dsimp only at h
+      split at h
+      · cases h
+      rename_i fieldName _ _ _ _ _ d2 ro rd sc dc hc
+      have hd2 := genCases_ok tf children _ _ _ _ _ _ _ _ _ ?_ hc
+      · cases h
+        dsimp only at hd2
+        cases (children.any fun x => x.tag == "case") <;>
+          cases (children.any fun c => c.tag == "case" && c.getBool "default") <;>
+          exact hd2.congr rfl rfl rfl rfl
+      · refine hd.fieldStep (fieldName ++ "_data") .caseData false (.param (fieldName ++ "_data"))
+          rfl rfl ?_ rfl (by intro h; cases h)
+        intro x hx
+        rcases hx with hx | hx
+        · exact List.mem_append_left _ hx
+        · subst hx
+          exact List.mem_append_right _ (List.mem_singleton.2 rfl)
+    rw [if_neg h5] at h
+    by_cases h6 : (tag == "chunked") = true
+    · rw [if_pos h6] at h
+      dsimp only at h
+      split at h
+      · cases h
+      rename_i c2 d2 hc
+      have hd2 := genBody_ok tf children _ _ _ _ _ ?_ hc
+      · split at h <;> cases h
+        · exact hd2.congr rfl rfl rfl rfl
+        · exact hd2
+      · split
+        · exact hd.congr rfl rfl rfl rfl
+        · exact hd
+    rw [if_neg h6] at h
+    by_cases h7 : (tag == "break") = true
+    · rw [if_pos h7] at h
+      split at h
+      · cases h
+      · cases h
+        exact hd.congr rfl rfl rfl rfl
+    rw [if_neg h7] at h
+    cases h
+    exact hd
+
+theorem genBody_ok (tf : TypeEnv) : (l : List Xml) → ∀ (ctx ctx' : Ctx) (d d' : Data) (b : Bool), DataOK d →
+    genBody tf ctx d l b = .ok (ctx', d') → DataOK d'
+  | [] => by
+    intro ctx ctx' d d' b hd h
+    rw [genBody] at h
+    cases h; exact hd
+  | c :: cs => by
+    intro ctx ctx' d d' b hd h
+    rw [genBody] at h
+    split at h
+    · exact genBody_ok tf cs _ _ _ _ _ hd h
+    · split at h
+      · cases h
+      · rename_i c1 d1 h1
+        exact genBody_ok tf cs _ _ _ _ _ (genInstruction_ok tf c _ _ _ _ hd h1) h
+
+theorem genCases_ok (tf : TypeEnv) : (l : List Xml) → ∀ (ctx : Ctx) (d : Data) (fn : String)
+    (start ro rd : Bool) (sc : List SerCase) (dc : List DeCase)
+    (res : Data × Bool × Bool × List SerCase × List DeCase), DataOK d →
+    genCases tf ctx d fn l start ro rd sc dc = .ok res → DataOK res.1
+  | [] => by
+    intro ctx d fn start ro rd sc dc res hd h
+    rw [genCases] at h
+    cases h; exact hd
+  | .mk ctag cattrs ctext ctail cchildren :: cs => by
+    intro ctx d fn start ro rd sc dc res hd h
+    rw [genCases] at h
+    dsimp only at h
+    by_cases h0 : (ctag != "case") = true
+    · rw [if_pos h0] at h
+      exact genCases_ok tf cs _ _ _ _ _ _ _ _ _ hd h
+    rw [if_neg h0] at h
+    split at h
+    · cases h
+    split at h
+    · cases h
+    rename_i cond _
+    by_cases h1 : (ctx.field? fn).isNone = true
+    · rw [if_pos h1] at h; cases h
+    rw [if_neg h1] at h
+    by_cases h2 : (!cchildren.any fun x => Xml.instructionTags.contains x.tag) = true
+    · rw [if_pos h2] at h
+      refine genCases_ok tf cs _ _ _ _ _ _ _ _ _ ?_ h
+      exact hd.congr rfl rfl rfl rfl
+    rw [if_neg h2] at h
+    split at h
+    · cases h
+    rename_i caseCtx' cd hb
+    have hcd := genBody_ok tf cchildren _ _ _ _ _ (DataOK.init _) hb
+    refine genCases_ok tf cs _ _ _ _ _ _ _ _ _ ?_ h
+    refine hd.step [] (List.append_nil _).symm (fun _ hx => hx) (fun _ hx => hx)
+      (fun _ hx => by cases hx) (fun _ hx => by cases hx) ?_
+    intro c hc
+    dsimp only at hc
+    rw [List.mem_append, List.mem_append, List.mem_singleton] at hc
+    rcases hc with (hc | hc) | hc
+    · exact Or.inl hc
+    · subst hc; exact Or.inr (hcd.toClass _)
+    · exact Or.inr (hcd.aux c hc)
+
+end
+
+theorem genObject_ok {tf : TypeEnv} {n : String} {body : Xml} {cs : List ClassIR}
+    (h : genObject tf n body = .ok cs) : ∀ c ∈ cs, ClassOK' c := by
+  unfold genObject at h
+  split at h
+  · cases h
+  · rename_i ctx d hb
+    cases h
+    have hd := genBody_ok tf _ _ _ _ _ _ (DataOK.init _) hb
+    intro c hc
+    rcases List.mem_cons.1 hc with rfl | hc
+    · exact hd.toClass _
+    · exact hd.aux c hc
+
+theorem genStruct_ok {tf : TypeEnv} {e : Xml} {r : List ClassIR × GenFile}
+    (h : genStruct tf e = .ok r) : ∀ c ∈ r.1, ClassOK' c := by
+  unfold genStruct at h
+  simp only [bind_ok_iff] at h
+  obtain ⟨n, _, t, _, h⟩ := h
+  split at h
+  · simp only [bind_ok_iff, pure_ok_iff] at h
+    obtain ⟨cs, hcs, rfl⟩ := h
+    exact genObject_ok hcs
+  · simp only [throw_ne_ok] at h
+
+theorem genPacket_ok {tf : TypeEnv} {dir : String} {e : Xml} {r : List ClassIR × GenFile}
+    (h : genPacket tf dir e = .ok r) : ∀ c ∈ r.1, ClassOK' c := by
+  unfold genPacket at h
+  repeat' first
+    | (rw [throw_bind_ok] at h; exact h.elim)
+    | (rw [throw_ne_ok] at h; exact h.elim)
+    | rw [pure_bind_ok] at h
+    | (rw [bind_ok_iff] at h; obtain ⟨_, _, h⟩ := h)
+    | split at h
+  all_goals
+    have hok := genObject_ok ‹genObject tf _ e = Except.ok _›
+    rw [pure_ok_iff] at h
+    subst h
+    intro c' hc'
+    rcases List.mem_cons.1 hc' with rfl | hc'
+    · have h1 := hok _ (List.mem_cons_self ..)
+      exact h1
+    · exact hok c' (List.mem_cons_of_mem _ hc')
+
+theorem mapM'_mem {α β} {f : α → Except GenErr β} : ∀ {l : List α} {r : List β},
+    mapM' f l = .ok r → ∀ y ∈ r, ∃ x ∈ l, f x = .ok y
+  | [], r, h, y, hy => by
+    rw [mapM'] at h; cases h; cases hy
+  | a :: as, r, h, y, hy => by
+    rw [mapM'] at h
+    split at h
+    · cases h
+    · rename_i b hb
+      cases hm : mapM' f as with
+      | error m => rw [hm] at h; cases h
+      | ok bs =>
+        rw [hm] at h
+        cases h
+        rcases List.mem_cons.1 hy with rfl | hy
+        · exact ⟨a, List.mem_cons_self .., hb⟩
+        · obtain ⟨x, hx, hfx⟩ := mapM'_mem hm y hy
+          exact ⟨x, List.mem_cons_of_mem _ hx, hfx⟩
+
+theorem genFile_ok {tf : TypeEnv} {f : ProtoFile} {o : GenOutput}
+    (h : genFile tf f = .ok o) : ∀ c ∈ o.classes, ClassOK' c := by
+  unfold genFile at h
+  simp only [bind_ok_iff, pure_ok_iff] at h
+  obtain ⟨enums, _, structs, hs, packets, hp, rfl⟩ := h
+  intro c hc
+  dsimp only at hc
+  rw [List.mem_append, List.mem_flatten, List.mem_flatten] at hc
+  rcases hc with ⟨l, hl, hc⟩ | ⟨l, hl, hc⟩
+  · obtain ⟨r, hr, rfl⟩ := List.mem_map.1 hl
+    obtain ⟨x, _, hx⟩ := mapM'_mem hs r hr
+    exact genStruct_ok hx c hc
+  · obtain ⟨r, hr, rfl⟩ := List.mem_map.1 hl
+    obtain ⟨x, _, hx⟩ := mapM'_mem hp r hr
+    exact genPacket_ok hx c hc
+
+theorem compile_ok {files : List ProtoFile} {out : GenOutput}
+    (h : compile files = .ok out) : ∀ c ∈ out.classes, ClassOK' c := by
+  unfold compile at h
+  simp only [bind_ok_iff, pure_ok_iff] at h
+  obtain ⟨defs, _, outs, ho, rfl⟩ := h
+  intro c hc
+  dsimp only at hc
+  rw [List.mem_flatten] at hc
+  obtain ⟨l, hl, hc⟩ := hc
+  obtain ⟨o, ho', rfl⟩ := List.mem_map.1 hl
+  obtain ⟨x, _, hx⟩ := mapM'_mem ho o ho'
+  exact genFile_ok hx c hc
+
+/-- `runInit.go` only appends to the attribute list -/
+theorem runInit_go_mono (args : List (String × Value)) : ∀ (body : List InitStmt)
+    (attrs res : List (String × Value)), runInit.go args body attrs = .ok res → ∀ p ∈ attrs, p ∈ res
+  | [], attrs, res, h, p, hp => by
+    rw [runInit.go] at h; cases h; exact hp
+  | .assign a e :: rest, attrs, res, h, p, hp => by
+    rw [runInit.go.eq_def] at h
+    dsimp only at h
+    repeat' first
+      | exact runInit_go_mono args rest _ _ h p (List.mem_append_left _ hp)
+      | split at h
+      | cases h
+  | .lenOf l o opt :: rest, attrs, res, h, p, hp => by
+    rw [runInit.go.eq_def] at h
+    dsimp only at h
+    repeat' first
+      | exact runInit_go_mono args rest _ _ h p (List.mem_append_left _ hp)
+      | split at h
+      | cases h
+
+theorem runInit_tupleOf (name : String) (opt : Bool) (args attrs : List (String × Value))
+    (rest : List InitStmt) (res : List (String × Value))
+    (h : runInit (.assign name (.tupleOf name opt) :: rest) args attrs = .ok res) :
+    ∃ v, (name, v) ∈ res ∧ (v.isNone = true ∨ ∃ vs, v = .tuple vs) := by
+  rw [runInit, runInit.go] at h
+  dsimp only at h
+  generalize (Option.map (fun x => x.snd) (List.find? (fun x => x.fst == name) args)).getD Value.none = av at h
+  have key : ∀ v, runInit.go args rest (attrs ++ [(name, v)]) = .ok res → (name, v) ∈ res :=
+    fun v hv => runInit_go_mono args rest _ _ hv _ (List.mem_append_right _ (List.mem_singleton.2 rfl))
+  cases av with
+  | tuple vs => exact ⟨.tuple vs, key _ h, Or.inr ⟨vs, rfl⟩⟩
+  | none =>
+    cases opt with
+    | true => exact ⟨.none, key _ h, Or.inl rfl⟩
+    | false => cases h
+  | _ => cases h
+
 end EoVerif.Gen
